@@ -397,11 +397,14 @@ func (p *Program) runPath(sv *solver, pkgPath string, fn *ssa.Function, prefix [
 				i.recordViolation("deadlock", known, "all goroutines blocked:"+r.desc, false)
 			case targetPanic:
 				pr.Status = "ok"
-				i.recordViolation("panic", "", "uncaught panic: "+i.describePanic(r.v), false)
+				i.recordViolation("panic", i.knownCrash(), "uncaught panic: "+i.describePanic(r.v), false)
+			case targetPanicText:
+				pr.Status = "ok"
+				i.recordViolation("panic", i.knownCrash(), "uncaught runtime panic: "+string(r)+" ["+i.lastFault+"]", false)
 			case runtime.Error:
 				if _, isTarget := r.(runtimeErrorText); isTarget || isTargetRuntimeError(r) {
 					pr.Status = "ok"
-					i.recordViolation("panic", "", "uncaught runtime error: "+r.Error()+" ["+i.lastFault+"]", false)
+					i.recordViolation("panic", i.knownCrash(), "uncaught runtime error: "+r.Error()+" ["+i.lastFault+"]", false)
 				} else {
 					pr.Status = "unsupported"
 					pr.Msg = "interpreter fault: " + r.Error() + " @ " + shortStack() + " [" + i.lastFault + "]"
@@ -690,4 +693,15 @@ func (i *interpreter) stackString() string {
 		parts = append(parts, i.callStack[k].String())
 	}
 	return strings.Join(parts, " < ")
+}
+
+// knownCrash returns the known-finding id a crash is attributed to (verif.KnownCrashIf), if its condition holds now.
+func (i *interpreter) knownCrash() string {
+	ps := i.ps
+	if ps.knownCrashID != "" && ps.knownCrashCond != nil {
+		if b, ok := (*ps.knownCrashCond).(bool); ok && b {
+			return ps.knownCrashID
+		}
+	}
+	return ""
 }
